@@ -161,6 +161,8 @@ def check_single(src, env, ast_spec, fracs, case, swallow):
     if U.kind == 'ops':
         bad('unbounded-run-hits-limit', f'ops-limit error with budget {BIG}: {U.msg}')
         return fails, info
+    if U.entries > 3 and U.ok + U.raised == 0:
+        raise core.HarnessError('monitor: node evaluations observed but no charge through Op.eval (seam moved?)')
     if U.ok + U.raised != U.entries:
         bad('charge-vs-entries', f'{U.entries} node evaluations but {U.ok}+{U.raised} charges; kinds {U.kinds}')
         return fails, info
